@@ -93,9 +93,11 @@ class TorchBackend(BaseBackend):
         # wrapper to rhs function: use torch.as_tensor for a zero-copy view of
         # the numpy arrays scipy hands us (a copy only occurs when the dtypes
         # differ, matching the previous torch.tensor() behavior).
+        # The generated function writes into one shared `dy` buffer and returns it; scipy's solvers keep references to
+        # returned derivatives across calls (e.g. for a step that is retried after a rejection), so a copy is handed out.
         def f(t, y):
             rhs = func(torch.as_tensor(t, dtype=dtype), torch.as_tensor(y, dtype=dtype), *args)
-            return rhs.numpy()
+            return np.array(rhs.numpy(), copy=True)
 
         # call scipy solver
         results = solve_ivp(fun=f, t_span=(t0, T), y0=y, first_step=dt, **kwargs)
